@@ -125,6 +125,9 @@ def recon_axioms(d, a):
                                           z3.And(smt.dkey(r)[j] == smt.dkey(d)[j], is_recon(smt.dval(r)[j], smt.dval(d)[j], a))),
                           patterns=[smt.dval(r)[j]]))),
             z3.Implies(z3.Not(z3.Or(islist, isdict)), r == d)), patterns=[is_recon(r, d, a)]),
+        # the quantifier-free consequence of the definition below, stated on its own so that path feasibility sees it
+        'assume:wf_ph-definition(placeholder case)': z3.Implies(z3.And(wf_ph(d, n), isdict, is_ph(d)), z3.And(
+            smt.kind(smt.vget(d, _NUM)) == smt.K_INT, smt.int_of(smt.vget(d, _NUM)) >= 0, smt.int_of(smt.vget(d, _NUM)) < n)),
         'assume:wf_ph-definition': wf_ph(d, n) == z3.And(
             z3.Implies(islist, z3.ForAll([j], z3.Implies(z3.And(j >= 0, j < smt.vlen(d)), wf_ph(smt.vseq(d)[j], n)), patterns=[smt.vseq(d)[j]])),
             z3.Implies(z3.And(isdict, is_ph(d)), z3.And(smt.kind(smt.vget(d, _NUM)) == smt.K_INT, smt.int_of(smt.vget(d, _NUM)) >= 0,
